@@ -33,12 +33,10 @@ Definition wr_gen (m : mname) : bool :=
 (* TrackedArray: the list methods as TrackedArray exposes them *)
 Definition wr_gen_array (m : mname) : bool := is_list_m m && smem (mname_str m) tracked_array_wrapped.
 
-(* the three method names of the recorded findings *)
+(* the operators that fix f0ecc86 added to the Tracked* classes (named for C28_operators_wrapped) *)
 Definition n_iadd : string := "__iadd__".
 Definition n_imul : string := "__imul__".
 Definition n_ior : string := "__ior__".
-Definition known_unwrapped_list : list string := [n_iadd; n_imul].
-Definition known_unwrapped_dict : list string := [n_ior].
 
 (* every CPython mutator name has an operation in the model (or is the constructor, which the Tracked* classes replace) *)
 Definition modelled_list_names : list string := map mname_str (filter is_list_m all_mnames).
